@@ -10,6 +10,7 @@ from . import common as C
 
 ID = "C08"
 LEVEL = "exploration"
+NONDET_IS_VIOLATION = True   # "bit-identical no matter how often it is repeated"
 
 PRE_P = dict(n_species=(1, 3), n_reactions=(0, 2), max_cells=6, graph_nodes=(1, 4), graph_edges=(0, 4),
              n_mol=(1.0, 50.0))
@@ -86,7 +87,7 @@ def generate(seed, tier, index):
         head = []
     ref = {"pyseed": rf.bits(30), "episodes": [
         {"obj": 0, "kind": kind, "via": "LibRDEngine", "script": 0,
-         "ops": head + [["setup"], ["drive", [["iterate"]], CAP], ["output", "ref"], ["finalize"]]}]}
+         "ops": head + [["poison", 0], ["setup"], ["drive", [["iterate"]], CAP], ["output", "ref"], ["finalize"]]}]}
     lifetimes.append(ref)
     nvar = rf.randint(1, 3)
     for v in range(nvar):
@@ -96,7 +97,7 @@ def generate(seed, tier, index):
             if rh.chance(0.7):
                 k2 = scripts[1 + j]["phys"]["kind"]
                 ending = rh.wchoice([("complete", 3), ("abandon", 2), ("finalize_mid", 2), ("double_finalize", 1)])
-                ops = [["setup"]]
+                ops = [["poison", rh.choice([0x00, 0x55, 0xff])], ["setup"]]
                 if ending == "complete":
                     ops += [["drive", [["iterate_n", 7]], CAP], ["output"], ["finalize"]]
                 elif ending == "abandon":
@@ -121,6 +122,10 @@ def generate(seed, tier, index):
                 kinds = set()
                 plan = _schedule(rf, sp["steps"], kinds)
                 faults.update("clock:" + k for k in kinds)
+                pb = rf.choice([0x00, 0x00, 0x01, 0x7f, 0xbe, 0xff])
+                ops += [["poison", pb]]   # always: the heap the engine objects land on is part of the case
+                if pb:
+                    faults.add("heap_poison")
                 ops += [["setup", "churn"] if rf.chance(0.2) else ["setup"]]
                 if rf.chance(0.3):
                     ops += [[rf.choice(["progress", "is_complete", "observe"])]]
@@ -136,6 +141,10 @@ def generate(seed, tier, index):
             else:
                 slices = [rf.wchoice([(1, 3), (2, 2), (rf.randint(3, 30), 3), (10 ** 6, 1)])
                           for _ in range(rf.randint(1, 4))]
+                pb = rf.choice([0x00, 0x00, 0x01, 0x7f, 0xbe, 0xff])
+                ops += [["poison", pb]]   # always: the heap the engine objects land on is part of the case
+                if pb:
+                    faults.add("heap_poison")
                 ops += [["simulate_script", {"slices": slices, "ms": 1000}, "v%d_%d" % (v, rep)]]
                 faults.add("simulate_script_loop")
                 if seedless or rf.chance(0.3):
